@@ -419,6 +419,16 @@ def distance_wei_floyd(adjacency, transform=None):
 
     hops[I], Pmat[I] = 0, 0
 
+    # with equal-length alternatives the route encoded in Pmat can differ from
+    # the one whose edges were counted above: count the edges of the Pmat route
+    for i, j in zip(*np.where(np.logical_and(np.isfinite(SPL), np.logical_not(I)))):
+        s, h = i, 0
+        while s != j and h < n:
+            s = Pmat[s, j]
+            h += 1
+        if s == j:
+            hops[i, j] = h
+
     return SPL, hops, Pmat
 
 
